@@ -246,6 +246,7 @@ def s_fold(I, w, frame, site, fn, args, term):
     dty = term['dest_ty']
     if dty['k'] == 'int':
         a = ATOMS.fresh('fold', *AI.int_range(dty), defn=('fold', tuple(args)))
+        I.loop_atoms.add(a)        # a quantity accumulated over a list, like a loop-carried sum (see decline_loop_obligations_in)
         return [(w, ('int', Lin.atom(a)))]
     return None
 
